@@ -105,7 +105,6 @@ void EventLoop::loop()
   assert(!looping_);
   assertInLoopThread();
   looping_ = true;
-  quit_ = false;  // FIXME: what if someone calls quit() before loop() ?
   LOG_TRACE << "EventLoop " << this << " start looping";
 
   while (!quit_)
@@ -131,6 +130,7 @@ void EventLoop::loop()
 
   LOG_TRACE << "EventLoop " << this << " stop looping";
   looping_ = false;
+  quit_ = false;  // reset here, not on entry: a quit() before loop() must not be lost
 }
 
 void EventLoop::quit()
